@@ -312,8 +312,16 @@ def rule_retry(ctx: Ctx) -> List[Ob]:
     msgs = [s for b in abort for s in ast.walk(b) if isinstance(s, ast.Assign) and
             any(isinstance(x, ast.Attribute) and x.attr == "task_str" for x in s.targets)]
     brk = any(isinstance(s, ast.Break) for b in abort for s in ast.walk(b))
-    ok = len(msgs) == 1 and isinstance(msgs[0].value, ast.Constant) and \
-        T.TERMINAL_MESSAGES.get(msgs[0].value.value) == "abnormal" and brk
+    mval = msgs[0].value if len(msgs) == 1 else None
+    if isinstance(mval, ast.Name):
+        # a message held in a local bound once, in this branch, to a constant
+        binds = [s for b in abort for s in ast.walk(b) if isinstance(s, ast.Assign) and len(s.targets) == 1 and
+                 isinstance(s.targets[0], ast.Name) and s.targets[0].id == mval.id]
+        allb = [s for s in ast.walk(mm.f.node) if isinstance(s, ast.Name) and s.id == mval.id and isinstance(s.ctx, ast.Store)]
+        if len(binds) == 1 and len(allb) == 1 and isinstance(binds[0].value, ast.Constant):
+            mval = binds[0].value
+    ok = len(msgs) == 1 and isinstance(mval, ast.Constant) and \
+        T.TERMINAL_MESSAGES.get(mval.value) == "abnormal" and brk
     obs.append(ob("RETRY", "abort branch sets the abnormal message and leaves the loop", mm.f, dec, ok,
                   f"messages {[short(m.value) for m in msgs]}, break={brk}", construct="abort branch of the failed search"))
     # retry branch
